@@ -4,10 +4,10 @@
 package world
 
 import (
-	"crypto/sha1"
 	"crypto"
 	"crypto/ecdsa"
 	"crypto/rsa"
+	"crypto/sha1"
 	"crypto/x509"
 	"crypto/x509/pkix"
 	"embed"
